@@ -326,7 +326,11 @@ impl Shared {
             Ev::Eof(c) => self.wires[*c].borrow_mut().push(Rx::Eof),
             Ev::RdErr(c) => self.wires[*c].borrow_mut().push(Rx::Err),
             Ev::Item { client, seq, n, continues } => {
-                self.stream(*client, *seq).borrow_mut().queue.push_back((*n, *continues));
+                let st = self.stream(*client, *seq);
+                let mut st = st.borrow_mut();
+                if !st.closed {
+                    st.queue.push_back((*n, *continues));
+                }
             }
             Ev::Close { client, seq } => {
                 self.stream(*client, *seq).borrow_mut().closed = true;
@@ -522,6 +526,11 @@ pub fn run_world(cfg: &WorldCfg) -> WorldOut {
                 break;
             }
         }
+        // stream states while the server is still alive
+        for (k, st) in &sh.borrow().streams {
+            let st = st.borrow();
+            out.streams.insert(*k, (st.attached, st.dropped, st.taken, st.queue.len()));
+        }
     }
     // the server future (and with it every connection) is dropped here
     let s = sh.borrow();
@@ -533,10 +542,6 @@ pub fn run_world(cfg: &WorldCfg) -> WorldOut {
     }
     out.log = s.log.clone();
     out.applied = s.applied.clone();
-    for (k, st) in &s.streams {
-        let st = st.borrow();
-        out.streams.insert(*k, (st.attached, st.dropped, st.taken, st.queue.len()));
-    }
     out.warns = vnet::trace::take().into_iter().map(|(_, s)| s).collect();
     out
 }
